@@ -189,6 +189,16 @@ type ordMsg struct {
 	cb   bool // the handler first calls back into the peer on its own context (ListRoots/Ping, ListTools/Ping), then works for d ms
 	b    int  // raw peer: messages with the same b != 0 travel in one POST body (a JSON-RPC batch), in this order
 	rs   int  // raw peer on rw/rwj: the session's reader pauses rs virtual ms after it has read this message
+	to   int  // fan-out cases: the receiving peer
+	of   int  // fan-out cases: the fan-out (1, 2, …) this message is the per-session copy of; 0 = a directed message
+	lat  int  // fan-out cases: virtual ms a sending middleware adds to this message's send path
+}
+
+// ordFan is one notifying method that addresses several sessions.
+type ordFan struct {
+	g        int
+	meth     string // roots (Client.AddRoots/RemoveRoots) · resupd (Server.ResourceUpdated) · tools/prompts/resources (Server.AddTool/AddPrompt/AddResource: debounced list_changed)
+	detached bool   // the notifying method only arms the debounce timer; the sends happen later on the timer's goroutine
 }
 
 type ordCase struct {
@@ -196,9 +206,37 @@ type ordCase struct {
 	dir  string // c2s · s2c (server goroutine, background context: the session's shared stream) · s2ci (inside a tool handler, request context: the call's own stream)
 	pv   string
 	msgs []ordMsg
+	// fan-out cases (np > 1): ONE Client connected to np servers (dir c2s) or ONE Server with np client sessions (dir s2c)
+	np   int
+	pvs  []string // protocol version per peer
+	sub  []bool   // dir s2c: is peer p subscribed to the resource?
+	fans []ordFan
 }
 
-func (c *ordCase) cfgOp() string { return fmt.Sprintf("cfg tr=%s dir=%s pv=%s", c.tr, c.dir, c.pv) }
+func (c *ordCase) cfgOp() string {
+	if c.np > 1 {
+		sub := ""
+		for _, b := range c.sub {
+			if b {
+				sub += "1"
+			} else {
+				sub += "0"
+			}
+		}
+		if sub != "" {
+			sub = " sub=" + sub
+		}
+		return fmt.Sprintf("cfg tr=%s dir=%s pv=%s np=%d%s", c.tr, c.dir, strings.Join(c.pvs, ","), c.np, sub)
+	}
+	return fmt.Sprintf("cfg tr=%s dir=%s pv=%s", c.tr, c.dir, c.pv)
+}
+func (f *ordFan) op() string {
+	mode := "sync"
+	if f.detached {
+		mode = "detached"
+	}
+	return fmt.Sprintf("f %d meth=%s mode=%s", f.g, f.meth, mode)
+}
 func (m *ordMsg) op(i int) string {
 	cb := 0
 	if m.cb {
@@ -210,6 +248,18 @@ func (m *ordMsg) op(i int) string {
 	}
 	if m.rs != 0 {
 		s += fmt.Sprintf(" rs=%d", m.rs)
+	}
+	return s
+}
+
+// fanOp is the op of a message of a fan-out case.
+func (m *ordMsg) fanOp(i int) string {
+	s := m.op(i) + fmt.Sprintf(" to=%d", m.to)
+	if m.of != 0 {
+		s += fmt.Sprintf(" of=%d", m.of)
+	}
+	if m.lat != 0 {
+		s += fmt.Sprintf(" lat=%d", m.lat)
 	}
 	return s
 }
@@ -233,6 +283,7 @@ type ordH struct {
 	carrier int // id of the carrier call of an s2ci scenario (-1: none)
 	cbres   map[int]string
 	script  func(ctx context.Context, ss *ServerSession)
+	fan     *ordFanState
 }
 
 func (h *ordH) log(what string, id int) {
@@ -276,7 +327,15 @@ func (h *ordH) sendMW(next MethodHandler) MethodHandler {
 	}
 }
 
-func (h *ordH) recvMW(next MethodHandler) MethodHandler {
+func (h *ordH) recvMW(next MethodHandler) MethodHandler { return h.recvMWp(-1)(next) }
+
+// recvMWp is the receiving middleware of peer p (p < 0: the receiver is not bound to a peer): a message
+// addressed to another peer is logged as unknown.
+func (h *ordH) recvMWp(peer int) Middleware {
+	return func(next MethodHandler) MethodHandler { return h.recvMWat(peer, next) }
+}
+
+func (h *ordH) recvMWat(peer int, next MethodHandler) MethodHandler {
 	return func(ctx context.Context, method string, req Request) (Result, error) {
 		tag := -1
 		if p := req.GetParams(); p != nil && !p.isNil() {
@@ -286,6 +345,9 @@ func (h *ordH) recvMW(next MethodHandler) MethodHandler {
 			case int:
 				tag = v
 			}
+		}
+		if peer >= 0 && tag >= 0 && tag < len(h.c.msgs) && h.c.msgs[tag].to != peer {
+			tag = -1
 		}
 		if tag == ordIgnore {
 			return next(ctx, method, req)
@@ -592,6 +654,10 @@ func (r *ordRaw) run(from int) {
 }
 
 func ordRunCase(t *testing.T, out *verifOut, id string, c *ordCase) {
+	if c.np > 1 {
+		ordRunFanCase(t, out, id, c)
+		return
+	}
 	var recs [][3]string
 	recs = append(recs, [3]string{"reset", "ok", "reset"})
 	flushed := false
@@ -1057,6 +1123,25 @@ func ordParse(lines []string) (*ordCase, bool) {
 		switch f[0] {
 		case "cfg":
 			c.tr, c.dir, c.pv = kv(f, "tr"), kv(f, "dir"), kv(f, "pv")
+			if np, _ := strconv.Atoi(kv(f, "np")); np > 1 {
+				c.np = np
+				c.pvs = strings.Split(c.pv, ",")
+				for len(c.pvs) < np {
+					c.pvs = append(c.pvs, c.pvs[0])
+				}
+				for _, ch := range kv(f, "sub") {
+					c.sub = append(c.sub, ch == '1')
+				}
+				for len(c.sub) < np {
+					c.sub = append(c.sub, true)
+				}
+			}
+		case "f":
+			if len(f) < 2 {
+				return nil, false
+			}
+			g, _ := strconv.Atoi(f[1])
+			c.fans = append(c.fans, ordFan{g: g, meth: kv(f, "meth"), detached: kv(f, "mode") == "detached"})
 		case "m":
 			d, _ := strconv.Atoi(kv(f, "d"))
 			g, _ := strconv.Atoi(kv(f, "gap"))
@@ -1066,7 +1151,10 @@ func ordParse(lines []string) (*ordCase, bool) {
 			}
 			b, _ := strconv.Atoi(kv(f, "b"))
 			rs, _ := strconv.Atoi(kv(f, "rs"))
-			c.msgs = append(c.msgs, ordMsg{dir: kv(f, "dir"), kind: k[0], meth: kv(f, "meth"), d: d, gap: g, cb: kv(f, "cb") == "1", b: b, rs: rs})
+			to, _ := strconv.Atoi(kv(f, "to"))
+			of, _ := strconv.Atoi(kv(f, "of"))
+			lat, _ := strconv.Atoi(kv(f, "lat"))
+			c.msgs = append(c.msgs, ordMsg{dir: kv(f, "dir"), kind: k[0], meth: kv(f, "meth"), d: d, gap: g, cb: kv(f, "cb") == "1", b: b, rs: rs, to: to, of: of, lat: lat})
 		}
 	}
 	return c, c.tr != "" && len(c.msgs) > 0
@@ -1121,8 +1209,14 @@ func TestVerifOrder(t *testing.T) {
 	if verifThorough() {
 		maxLen = 14
 	}
+	frng := verifRng(37)
 	for i := 0; i < n; i++ {
 		tr := ordTransports[i%len(ordTransports)]
 		ordRunCase(t, out, fmt.Sprintf("g%d", i), ordGen(rng, tr, maxLen))
+		if i%3 == 2 {
+			// every third step also a fan-out case: one sender, 2-3 receiving peers
+			k := i / 3
+			ordRunCase(t, out, fmt.Sprintf("f%d", k), ordGenFan(frng, ordFanTransports[k%len(ordFanTransports)], maxLen))
+		}
 	}
 }
